@@ -3,14 +3,14 @@
 open Satenc_model
 open Satenc_io
 
-let simplified_clauses (s : state) : string =
+let simplified_clauses (s : state) : ostring =
   let one c =
     if List.exists (fun l -> value s l = LTrue) c then None
     else Some (List.sort_uniq compare (List.map idx_of_lit (List.filter (fun l -> value s l = LUndef) c))) in
   let cs = List.sort_uniq compare (List.filter_map one s.clauses) in
   String.concat ";" (List.map (fun c -> String.concat "," (List.map string_of_int c)) cs)
 
-let observe (h : ov_hist) : string =
+let observe (h : ov_hist) : ostring =
   let o = h.cur in
   let s = o.sat in
   let n = int_of_nat s.nvars in
@@ -29,7 +29,7 @@ let observe (h : ov_hist) : string =
     o.doms;
   Buffer.add_string b " vs=ok";   (* the harness judges value() against the literal values; the model's value() is that set by definition *)
   let ex = List.sort compare (List.map (fun ((l, r), c) ->
-      "=e" ^ string_of_int (int_of_nat l) ^ "e" ^ string_of_int (int_of_nat r) ^ ":" ^ string_of_int (idx_of_lit c)) o.oexprs) in
+      ocaml_string (str_ov_key l r) ^ ":" ^ string_of_int (idx_of_lit c)) o.oexprs) in   (* extracted, proved-injective printer *)
   Buffer.add_string b (" oex=" ^ String.concat "," ex);
   Buffer.contents b
 
